@@ -12,6 +12,12 @@ from ..symex import (T, Evaluator, array_fn, call_parts, const, func_name, is_co
                      strip_wrappers, subterms, substitute, sym)
 
 ID = "C20"
+
+
+class Unmodelled(Exception):
+    """A lattice routine is written in a form the rule has no model for: the rule instance is skipped with a note (the
+    anchor -- the class and the method -- is still there; an AnalysisError is kept for anchors that vanished)."""
+
 EXPLANATION = (
     "Static class-table and def-use analysis of ad_afqmc/lattices.py: LAT-1 every dataclass field "
     "is either re-derived unconditionally by __post_init__ or carried by tree_flatten into its own "
@@ -53,7 +59,40 @@ def lattice_classes(ctx) -> List[ClassInfo]:
     out = [ctx.p.classes[q] for q in ctx.p.subclasses(base.qualname, include_self=False)]
     if not out:
         raise AnalysisError("no lattice subclasses found")
-    return out
+    skip = getattr(ctx, "_c20_skip", set())
+    return [c for c in out if c.qualname not in skip]
+
+
+def _per_class(ctx, rule, label: str):
+    """Run one rule family over the lattice classes; a class whose routine is written in a form the rule does not model
+    is left out of that family with a note (its other classes, and the class's other rule families, are still judged)."""
+    ctx._c20_skip = set()
+    all_q = sorted((c.qualname for c in lattice_classes(ctx)), key=len, reverse=True)
+    for _ in range(len(all_q) + 1):
+        n_ob, n_no, cnt = len(ctx.rep.obligations), len(ctx.rep.notes), dict(ctx.rep.counters)
+        try:
+            rule(ctx)
+            break
+        except Unmodelled as u:
+            msg = str(u)
+            cls = next((q for q in all_q if msg.startswith(q)), None)
+            del ctx.rep.obligations[n_ob:]
+            del ctx.rep.notes[n_no:]
+            ctx.rep.counters.clear()
+            ctx.rep.counters.update(cnt)
+            if cls is None or cls in ctx._c20_skip:
+                ctx.rep.note(f"{label}: {msg}; rule family not applicable to this shape of the code")
+                break
+            ctx._c20_skip.add(cls)
+            ctx._c20_notes = getattr(ctx, "_c20_notes", []) + [f"{label}: {msg}; {cls} is not judged by this rule family"]
+        except AnalysisError as a:
+            if ctx._c20_skip and "matched n" in str(a):
+                break          # every class was left out with a note
+            raise
+    for m_ in getattr(ctx, "_c20_notes", []):
+        ctx.rep.note(m_)
+    ctx._c20_notes = []
+    ctx._c20_skip = set()
 
 
 # ---------------------------------------------------------------- LAT-1
@@ -109,7 +148,7 @@ def _flatten_lists(ctx, ci: ClassInfo) -> Tuple[Optional[List[Optional[str]]], O
             self.value = v
     rets = [_R(v_) for _, v_ in returned_values(norm(fl.node))]
     if len(rets) != 1 or not isinstance(rets[0].value, ast.Tuple) or len(rets[0].value.elts) != 2:
-        raise AnalysisError(f"{ci.qualname}.tree_flatten: unmodelled return shape")
+        raise Unmodelled(f"{ci.qualname}.tree_flatten: unmodelled return shape")
 
     def names(node) -> List[Optional[str]]:
         if isinstance(node, (ast.Tuple, ast.List)):
@@ -119,7 +158,7 @@ def _flatten_lists(ctx, ci: ClassInfo) -> Tuple[Optional[List[Optional[str]]], O
                     # *self.shape, where __post_init__ sets self.shape = (self.l_y, self.l_x): the fields, in that order
                     comp = _post_init_tuple(ci, _self_attr(e.value))
                     if comp is None:
-                        raise AnalysisError(f"{ci.qualname}.tree_flatten: unmodelled *{ast.unparse(e.value)}")
+                        raise Unmodelled(f"{ci.qualname}.tree_flatten: unmodelled *{ast.unparse(e.value)}")
                     out.extend(comp)
                 else:
                     out.append(_self_attr(e))
@@ -138,7 +177,21 @@ def _flatten_lists(ctx, ci: ClassInfo) -> Tuple[Optional[List[Optional[str]]], O
                         if isinstance(e, ast.Call) and dotted(e.func) == "getattr":
                             return [f.name for f in ctx.p.dataclass_fields(ci.qualname)]
                 return names(g)
-        raise AnalysisError(f"{ci.qualname}.tree_flatten: unmodelled container {ast.unparse(node)}")
+            # a module-level helper applied to self whose body is one return: what it returns, read with its
+            # parameter standing for self
+            if isinstance(node.func, ast.Name) and len(node.args) == 1 and not node.keywords and \
+                    isinstance(node.args[0], ast.Name) and node.args[0].id == "self":
+                hf = ctx.p.module(MOD).functions.get(node.func.id)
+                if hf is not None and len(hf.params) == 1 and len(hf.real_body()) == 1 and \
+                        isinstance(hf.real_body()[0], ast.Return) and hf.real_body()[0].value is not None:
+                    import copy
+                    pn = hf.params[0].name
+
+                    class Ren(ast.NodeTransformer):
+                        def visit_Name(self, n):
+                            return ast.copy_location(ast.Name(id="self", ctx=n.ctx), n) if n.id == pn else n
+                    return names(Ren().visit(copy.deepcopy(hf.real_body()[0].value)))
+        raise Unmodelled(f"{ci.qualname}.tree_flatten: unmodelled container {ast.unparse(node)}")
 
     ch, aux = rets[0].value.elts
     return names(ch), names(aux), ""
@@ -156,10 +209,10 @@ def _unflatten_slots(ctx, ci: ClassInfo, children: List, aux: List) -> Dict[str,
     from ..model import returned_values
     rets = [v_ for _, v_ in returned_values(un.node)]
     if len(rets) != 1 or not isinstance(rets[0], ast.Call):
-        raise AnalysisError(f"{ci.qualname}.tree_unflatten: unmodelled body")
+        raise Unmodelled(f"{ci.qualname}.tree_unflatten: unmodelled body")
     c = rets[0]
     if not (isinstance(c.func, ast.Name) and c.func.id == cls_name):
-        raise AnalysisError(f"{ci.qualname}.tree_unflatten: does not call cls(...)")
+        raise Unmodelled(f"{ci.qualname}.tree_unflatten: does not call cls(...)")
     fields = [f.name for f in ctx.p.dataclass_fields(ci.qualname)]
     # straight-line locals of the body:  a, b, c = aux_data   /   x = aux_data[0]
     local: Dict[str, Optional[str]] = {}
@@ -181,7 +234,7 @@ def _unflatten_slots(ctx, ci: ClassInfo, children: List, aux: List) -> Dict[str,
                         return None
                     v = ast.literal_eval(x) if isinstance(x, (ast.Constant, ast.UnaryOp)) else None
                     if not isinstance(v, int):
-                        raise AnalysisError("non-literal slice in tree_unflatten")
+                        raise Unmodelled("non-literal slice in tree_unflatten")
                     return v
                 return base[slice(iv(sl.lower), iv(sl.upper), iv(sl.step))]
         return None
@@ -204,7 +257,7 @@ def _unflatten_slots(ctx, ci: ClassInfo, children: List, aux: List) -> Dict[str,
             if isinstance(tg, (ast.Tuple, ast.List)) and all(isinstance(e, ast.Name) for e in tg.elts):
                 src = seq(st.value)
                 if src is None or len(src) != len(tg.elts):
-                    raise AnalysisError(f"{ci.qualname}.tree_unflatten: unmodelled unpacking {ast.unparse(st)}")
+                    raise Unmodelled(f"{ci.qualname}.tree_unflatten: unmodelled unpacking {ast.unparse(st)}")
                 for e, v in zip(tg.elts, src):
                     local[e.id] = v
             elif isinstance(tg, ast.Name):
@@ -230,7 +283,7 @@ def _unflatten_slots(ctx, ci: ClassInfo, children: List, aux: List) -> Dict[str,
             if s is None and isinstance(a.value, ast.Name) and a.value.id in local:
                 s = composite(local[a.value.id])
             if s is None:
-                raise AnalysisError(f"{ci.qualname}.tree_unflatten: unmodelled *{ast.unparse(a.value)}")
+                raise Unmodelled(f"{ci.qualname}.tree_unflatten: unmodelled *{ast.unparse(a.value)}")
             args.extend(s)
         else:
             args.append(elem(a))
@@ -241,7 +294,7 @@ def _unflatten_slots(ctx, ci: ClassInfo, children: List, aux: List) -> Dict[str,
         slots[f] = v if v is not None else "<expr>"
     for k in c.keywords:
         if k.arg is None:
-            raise AnalysisError(f"{ci.qualname}.tree_unflatten: **kwargs")
+            raise Unmodelled(f"{ci.qualname}.tree_unflatten: **kwargs")
         slots[k.arg] = elem(k.value) or "<expr>"
     return slots
 
@@ -313,6 +366,24 @@ def lat2(ctx):
         h = ci.methods.get("__hash__")
         if h is not None:
             used = {a for n in ast.walk(h.node) if (a := _self_attr(n))}
+            # a class-level table of field names (ClassVar tuple of strings) read through self: the names it lists
+            # are what the hash uses
+            for q_ in p.classes[ci.qualname].mro:
+                c2 = p.classes.get(q_)
+                if c2 is None:
+                    continue
+                for st_ in c2.node.body:
+                    tg_ = st_.target if isinstance(st_, ast.AnnAssign) else (
+                        st_.targets[0] if isinstance(st_, ast.Assign) and len(st_.targets) == 1 else None)
+                    if isinstance(tg_, ast.Name) and tg_.id in used and tg_.id not in fields and \
+                            getattr(st_, "value", None) is not None:
+                        used.discard(tg_.id)
+                        try:
+                            lit_ = ast.literal_eval(st_.value)
+                        except Exception:
+                            lit_ = None
+                        if isinstance(lit_, (tuple, list)) and all(isinstance(x_, str) for x_ in lit_):
+                            used.update(lit_)
             bad = sorted(a for a in used if a not in fields and a != "__dict__")
             ctx.ob("LAT-2", f"{ci.qualname}.__hash__ names existing fields", not bad,
                    f"unknown attributes {bad}" if bad else f"uses {sorted(used)}", h)
@@ -554,7 +625,7 @@ def lat3(ctx):
             raise AnalysisError(f"{ci.qualname}: site list or get_site_num not found")
         comps, total, line = dec
         if comps == "unmodelled" or any(c is None for c in comps) or total is None:
-            raise AnalysisError(f"{ci.qualname}.__post_init__:{line} unmodelled site-list decode")
+            raise Unmodelled(f"{ci.qualname}.__post_init__:{line} unmodelled site-list decode")
         n += 1
         # valid mixed radix: sort by divisor; finest has D == 1, each M equals next coarser D
         order = sorted(range(len(comps)), key=lambda k: len(comps[k][1]))
@@ -584,7 +655,7 @@ def lat3(ctx):
         pname = [p.name for p in gsn.params if p.name != "self"][0]
         lf = _linear_form(rets[0], pname, {}) if len(rets) == 1 else None
         if lf is None:
-            raise AnalysisError(f"{ci.qualname}.get_site_num: unmodelled expression")
+            raise Unmodelled(f"{ci.qualname}.get_site_num: unmodelled expression")
         same = lf == strides
         ctx.ob("LAT-3", f"{ci.qualname}: get_site_num inverts the site list", same,
                f"strides {lf}" + ("" if same else f" but the site list decodes with strides {strides}"),
@@ -653,7 +724,7 @@ def _adjacency(ctx, ci, cam: FuncInfo, strides, comps, total):
                 nd.func.attr == "get_nearest_neighbors" and nd.args:
             pos_call = nd
     if pos_call is None:
-        raise AnalysisError(f"{ci.qualname}.create_adjacency_matrix: neighbour call not found")
+        raise Unmodelled(f"{ci.qualname}.create_adjacency_matrix: neighbour call not found")
     # extents of each axis per the site list
     order = sorted(range(len(comps)), key=lambda k: len(comps[k][1]))
     extent: Dict[int, Optional[Mono]] = {}
@@ -677,7 +748,7 @@ def _adjacency(ctx, ci, cam: FuncInfo, strides, comps, total):
     if isinstance(a0, ast.Tuple):
         pos_vars = [e.id if isinstance(e, ast.Name) else None for e in a0.elts]
         if None in pos_vars or len(pos_vars) != len(comps):
-            raise AnalysisError(f"{ci.qualname}.create_adjacency_matrix: unmodelled position tuple")
+            raise Unmodelled(f"{ci.qualname}.create_adjacency_matrix: unmodelled position tuple")
         for k, v in enumerate(pos_vars):
             ok = loops.get(v) == extent[k]
             ctx.ob("LAT-3", f"{ci.qualname}.create_adjacency_matrix: axis {k} loop extent", ok,
@@ -688,7 +759,7 @@ def _adjacency(ctx, ci, cam: FuncInfo, strides, comps, total):
         ctx.ob("LAT-3", f"{ci.qualname}.create_adjacency_matrix: positions enumerate the site list", True,
                f"for {site_loop_var} in self.sites", cam)
     else:
-        raise AnalysisError(f"{ci.qualname}.create_adjacency_matrix: unmodelled position {ast.unparse(a0)}")
+        raise Unmodelled(f"{ci.qualname}.create_adjacency_matrix: unmodelled position {ast.unparse(a0)}")
     if len(comps) == 1:
         # chain: h[r, nr] indexed by the position itself
         ctx.ob("LAT-3", f"{ci.qualname}.create_adjacency_matrix: row index is the site number", True,
@@ -1042,8 +1113,10 @@ def lat45(ctx):
             if x.op in ("phi", "ifexp") and x.args[0] not in conds:
                 conds.append(x.args[0])
         if len(conds) > 4:
-            raise AnalysisError(f"{ci.qualname}.get_nearest_neighbors: too many branches")
+            raise Unmodelled(f"{ci.qualname}.get_nearest_neighbors: too many branches")
         dec = _sites_decode(ci)
+        if dec is None or dec[0] == "unmodelled" or dec[0] is None or any(c is None for c in dec[0]) or dec[1] is None:
+            raise Unmodelled(f"{ci.qualname}.__post_init__: unmodelled site-list decode (the axis extents are read from it)")
         comps, total, _ = dec
         order = sorted(range(len(comps)), key=lambda k: len(comps[k][1]))
         extent: Dict[int, Mono] = {}
@@ -1068,12 +1141,12 @@ def lat45(ctx):
             offs = []
             for nb, filt in elems:
                 if nb.op != "tuple":
-                    raise AnalysisError(f"{ci.qualname}.get_nearest_neighbors: neighbour is not a tuple")
+                    raise Unmodelled(f"{ci.qualname}.get_nearest_neighbors: neighbour is not a tuple")
                 vec, mods = {}, {}
                 for axis_pos, c in enumerate(nb.args):
                     comp = _component(c, pos)
                     if comp is None or comp[0] != axis_pos:
-                        raise AnalysisError(
+                        raise Unmodelled(
                             f"{ci.qualname}.get_nearest_neighbors: unmodelled component {show(c)[:80]}")
                     vec[axis_pos] = comp[1]
                     # a coordinate the neighbour function itself range-tests before returning the site
@@ -1166,7 +1239,10 @@ def lat45(ctx):
             # test that coordinate itself (a test on the flattened index aliases into the neighbouring row)
             cam = _adjacency_builder(ctx, ci)
             unwrapped = sorted({k for o in offs for k, m in enumerate(o[1]) if m is None and o[0][k] != 0})
-            if cam is not None and unwrapped and len(extent) > 1:
+            if cam is not None and unwrapped and len(extent) > 1 and ci.qualname not in _ADJ_GUARDED:
+                ctx.rep.note(f"{ci.qualname}.create_adjacency_matrix [{label}]: the adjacency builder is written in a form "
+                             f"the range-test rule does not model; not judged")
+            elif cam is not None and unwrapped and len(extent) > 1:
                 g = _ADJ_GUARDED.get(ci.qualname, {})
                 bad = [k for k in unwrapped if not g.get(k)]
                 ctx.ob("LAT-4", f"{ci.qualname}.create_adjacency_matrix [{label}]: every coordinate that can leave its "
@@ -1187,10 +1263,11 @@ def lat45(ctx):
 
 
 def run(ctx):
-    lat1(ctx)
-    lat2(ctx)
-    lat3(ctx)
-    lat45(ctx)
+    _ADJ_GUARDED.clear()
+    _per_class(ctx, lat1, "LAT-1")
+    _per_class(ctx, lat2, "LAT-2")
+    _per_class(ctx, lat3, "LAT-3")
+    _per_class(ctx, lat45, "LAT-4/5")
     ctx.rep.trust("dataclass field-order and __post_init__ semantics", "jax pytree contract: "
                   "tree_unflatten(aux, children) receives exactly what tree_flatten returned")
 
